@@ -87,6 +87,19 @@ def r12_1(ctx, rep):
             else:
                 ok = isinstance(p, ast.Starred) and isinstance(parent(p), ast.Call) and isinstance(parent(p).func, ast.Attribute) \
                     and parent(p).func.attr == "call"
+                # the same, spelled with names: `a, b = self.function_mode; F.call(args, a, b)` — the two names go nowhere else
+                if not ok and isinstance(p, ast.Assign) and p.value is n_ and len(p.targets) == 1 and isinstance(p.targets[0], ast.Tuple) \
+                        and all(isinstance(t, ast.Name) for t in p.targets[0].elts):
+                    flags = [t.id for t in p.targets[0].elts]
+                    host = p
+                    while host is not None and not isinstance(host, ast.FunctionDef):
+                        host = parent(host)
+                    loads = [x for x in ast.walk(host) if isinstance(x, ast.Name) and x.id in flags and isinstance(x.ctx, ast.Load)] if host is not None else []
+                    def _is_call_flag(x):
+                        c = parent(x)
+                        return isinstance(c, ast.Call) and isinstance(c.func, ast.Attribute) and c.func.attr == "call" and x in c.args[1:] \
+                            and [a.id for a in c.args[1:] if isinstance(a, ast.Name)] == flags
+                    ok = bool(loads) and all(_is_call_flag(x) for x in loads)
             n += 1
             rep.ob(R, GEN + ":" + _enclosing_fn(n_), "use of .%s in `%s`" % (n_.attr, norm(p)[:70]), ok,
                    "the mode derived from %s may only be the mode argument of Function.map / the inline flags of Function.call" % opt)
